@@ -127,25 +127,25 @@ listing (entity ids in order, each with its track) and crate::tracks; no listing
 undefined behaviour; every listing is duplicate-free. -/
 theorem C09_listings_equal_spec {S : Ord} {d : Db} (h : ChInv S d) :
     qRoots d = .ok (S.kids 0) ∧ (∀ c, qChildren d c = .ok (S.kids c)) ∧ (∀ k, (S.kids k).Nodup) ∧
-    (∀ l, ∃ rows, qEntities d l = .ok rows ∧ rows.map (·.1) = S.ents l ∧ qTracks d l = .ok (rows.map (·.2)) ∧
-      (∀ p ∈ rows, ∃ r ∈ d.pe, r.id = p.1 ∧ r.val = p.2 ∧ r.key = l)) ∧
+    (∀ l, ∃ rows, qEntities d l = .ok rows ∧ rows.map (·.1) = S.ents l ∧ qTracks d l = .ok (rows.map (·.2.1)) ∧
+      (∀ p ∈ rows, ∃ r ∈ d.pe, r.id = p.1 ∧ r.val.track = p.2.1 ∧ r.val.uuid = p.2.2 ∧ r.key = l)) ∧
     (∀ l, (S.ents l).Nodup) := by
   refine ⟨walkIds_eq h.rk 0, fun c => walkIds_eq h.rk c, h.rk.nodup, ?_, h.re.nodup⟩
   intro l
   obtain ⟨rows, hw, hm, hr⟩ := walkBack_spec h.re l
-  refine ⟨rows.map (fun r => (r.id, r.val)), ?_, ?_, ?_, ?_⟩
+  refine ⟨rows.map (fun r => (r.id, r.val.track, r.val.uuid)), ?_, ?_, ?_, ?_⟩
   · simp [qEntities, hw, Res.bind]
   · rw [List.map_map]; exact hm
   · simp [qTracks, hw, Res.bind, List.map_map, Function.comp_def]
   · intro p hp
     obtain ⟨r, hrm, rfl⟩ := List.mem_map.mp hp
-    exact ⟨r, (hr r hrm).1, rfl, rfl, (hr r hrm).2⟩
+    exact ⟨r, (hr r hrm).1, rfl, rfl, rfl, (hr r hrm).2⟩
 
 theorem C09_history_listings_equal_spec_partial (ops : List Op) (hok : ops.all okOp = true) :
     let d := run Db.empty ops
     let S := ordRun Db.empty Ord.empty ops
     qRoots d = .ok (S.kids 0) ∧ (∀ c, qChildren d c = .ok (S.kids c)) ∧
-    (∀ l, ∃ rows, qEntities d l = .ok rows ∧ rows.map (·.1) = S.ents l ∧ qTracks d l = .ok (rows.map (·.2))) := by
+    (∀ l, ∃ rows, qEntities d l = .ok rows ∧ rows.map (·.1) = S.ents l ∧ qTracks d l = .ok (rows.map (·.2.1))) := by
   obtain ⟨h1, h2, _, h4, _⟩ := C09_listings_equal_spec (chInv_run chInv_empty ops hok)
   refine ⟨h1, h2, fun l => ?_⟩
   obtain ⟨rows, a, b, c, _⟩ := h4 l
@@ -185,15 +185,55 @@ theorem C09_history_listings_change_as_prescribed_partial (ops : List Op) (hok :
   · show (qEntities (step (run Db.empty ops) op).1 k).bind _ = _
     rw [s1]; simp [Res.bind, s2]
 
+/-- An entry's identity is (list, database uuid, track id): add_back treats as a duplicate only an entry of the
+same list with the same track id AND the same database uuid.  Whatever else the list holds — in particular
+an entry of ANOTHER database that happens to carry the same numeric track id — a new entry is appended at the
+end of the listing with the next AUTOINCREMENT id, for every uuid `u`. -/
+theorem C09_add_back_identity_includes_database {S : Ord} {d : Db} (h : ChInv S d) (l t u : Int) (f : Bool) (ht : 0 < t)
+    (hnew : peFind d l t u = none) :
+    (step d (.peAddBack l t u f)).2 = .ok (some (d.peSeq + 1)) ∧
+    (ordStep S d (.peAddBack l t u f)).ents l = S.ents l ++ [d.peSeq + 1] ∧
+    ChInv (ordStep S d (.peAddBack l t u f)) (step d (.peAddBack l t u f)).1 ∧
+    ∃ rows, qEntities (step d (.peAddBack l t u f)).1 l = .ok rows ∧ rows.map (·.1) = S.ents l ++ [d.peSeq + 1] ∧
+      (d.peSeq + 1, t, u) ∈ rows := by
+  have hstep : step d (.peAddBack l t u f) =
+      ({ d with pe := appendBack d.pe (d.peSeq + 1) l ⟨t, u⟩, peSeq := d.peSeq + 1 }, .ok (some (d.peSeq + 1))) := by
+    simp [step, peAddBack, hnew]
+  have hord : (ordStep S d (.peAddBack l t u f)).ents l = S.ents l ++ [d.peSeq + 1] := by
+    rw [ordStep_ok hstep]; simp [ordOk, hnew]
+  have hI' := chInv_step h (.peAddBack l t u f) (by simpa [okOp] using ht)
+  refine ⟨by rw [hstep], hord, hI', ?_⟩
+  obtain ⟨_, _, _, h4, _⟩ := C09_listings_equal_spec hI'
+  obtain ⟨rows, r1, r2, _, r4⟩ := h4 l
+  refine ⟨rows, r1, by rw [r2, hord], ?_⟩
+  have hm : d.peSeq + 1 ∈ rows.map (·.1) := by rw [r2, hord]; simp
+  obtain ⟨p, hp, e⟩ := List.mem_map.mp hm
+  obtain ⟨r, hr, e1, e2, e3, _⟩ := r4 p hp
+  -- the row with the new id is the appended one
+  rw [hstep] at hr
+  rcases mem_appendBack hr with ⟨r0, hr0, e4, _⟩ | ⟨_, e5⟩
+  · exfalso
+    have : d.peSeq + 1 ∈ ids d.pe := by
+      simp only [ids, List.mem_map]; exact ⟨r0, hr0, by rw [← e4, e1, e]⟩
+    have := h.peSeq _ this
+    omega
+  · have : p = (d.peSeq + 1, t, u) := by
+      rw [e5] at e2 e3
+      cases p with
+      | mk a b =>
+        cases b with
+        | mk b c => simp only at e e2 e3; rw [e, ← e2, ← e3]
+    rw [← this]; exact hp
+
 /-- The unrestricted history statement is false of the code: at table level an entry whose trackId is not
 positive is not re-linked when it is removed (the schema's trigger_before_delete_PlaylistEntity is declared
 `WHEN OLD.trackId > 0`), after which get_for_list dereferences the missing tail.
 Replayed on the real library: findings/C09.json, witness
-`pe.add 3 2 0 ; pe.add 3 3 0 ; pe.add 3 0 0 ; pe.remove 3 3 ; pe.list 3`. -/
+`pe.add 3 2 0 0 ; pe.add 3 3 0 0 ; pe.add 3 0 0 0 ; pe.remove 3 3 ; pe.list 3`. -/
 theorem C09_history_counterexample :
-    qEntities (run Db.empty [.peAddBack 3 2 false, .peAddBack 3 3 false, .peAddBack 3 0 false, .peRemove 3 3]) 3
+    qEntities (run Db.empty [.peAddBack 3 2 0 false, .peAddBack 3 3 0 false, .peAddBack 3 0 0 false, .peRemove 3 3]) 3
       = .ub .oob_read ∧
-    wfChains (run Db.empty [.peAddBack 3 2 false, .peAddBack 3 3 false, .peAddBack 3 0 false, .peRemove 3 3]) = false := by
+    wfChains (run Db.empty [.peAddBack 3 2 0 false, .peAddBack 3 3 0 false, .peAddBack 3 0 0 false, .peRemove 3 3]) = false := by
   decide
 
 /-! ### non-vacuity -/
@@ -202,7 +242,7 @@ theorem C09_history_counterexample :
 contents and a removal satisfies `okOp`; its listings are the expected ones. -/
 def sampleOps : List Op :=
   [.createRoot [97], .createRoot [98], .createRootAfter [99] 1, .createSub 1 [100], .createSub 1 [101],
-   .setParent 3 (some 1), .createTrack, .createTrack, .addTrack 1 2, .addTrack 1 1, .peAddBack 1 2 false,
+   .setParent 3 (some 1), .createTrack, .createTrack, .addTrack 1 2, .addTrack 1 1, .peAddBack 1 2 0 false,
    .removeTrackFrom 1 2, .removeCrate 4]
 
 example : sampleOps.all okOp = true := by decide
@@ -210,6 +250,15 @@ example : qRoots (run Db.empty sampleOps) = .ok [1, 2] := by decide
 example : qChildren (run Db.empty sampleOps) 1 = .ok [5, 3] := by decide
 example : qTracks (run Db.empty sampleOps) 1 = .ok [1] := by decide
 example : (ordRun Db.empty Ord.empty sampleOps).kids 1 = [5, 3] := by decide
+/-- two databases with colliding track ids in one list: [A:7, B:7, A:8, B:8]; re-adding B:7 returns entity 2;
+removing it leaves [A:7, A:8, B:8] -/
+def mixedOps : List Op := [.peAddBack 5 7 0 false, .peAddBack 5 7 1 false, .peAddBack 5 8 0 false, .peAddBack 5 8 1 true]
+example : mixedOps.all okOp = true := by decide
+example : qEntities (run Db.empty mixedOps) 5 = .ok [(1, 7, 0), (2, 7, 1), (3, 8, 0), (4, 8, 1)] := by decide
+example : peFind (run Db.empty (mixedOps.take 1)) 5 7 1 = none ∧ (peGet (run Db.empty (mixedOps.take 1)) 5 7).isSome = true := by decide
+example : (step (run Db.empty mixedOps) (.peAddBack 5 7 1 false)).2 = .ok (some 2) := by decide
+example : qEntities (run Db.empty (mixedOps ++ [.peRemove 5 2])) 5 = .ok [(1, 7, 0), (3, 8, 0), (4, 8, 1)] := by decide
+
 example : okOp (.setParent 3 (some 1)) = true ∧ (kidsChange (run Db.empty (sampleOps.take 5)) (.setParent 3 (some 1)) 1)
     = Ordered.Change.inserted 3 := by decide
 
